@@ -131,7 +131,13 @@ func (s *streamWriter) init() {
 			}
 		default:
 			slog.Debug("remote using TLS for writing")
-			rawconn, err = tls.Dial("tcp", s.writeToAddr, s.tlsConfig)
+			// tls.Dial returns a *tls.Conn: assigning a failed (nil) result straight to
+			// the net.Conn variable would make it a non-nil interface.
+			var tlsConn *tls.Conn
+			tlsConn, err = tls.Dial("tcp", s.writeToAddr, s.tlsConfig)
+			if err == nil {
+				rawconn = tlsConn
+			}
 			if err != nil {
 				d := time.Duration(delay * time.Duration(i*2))
 				slog.Error("tls.Dial", "err", err, "remote", s.writeToAddr, "retry", i, "max", maxRetries, "delay", d)
